@@ -11,6 +11,7 @@ import (
 	"os"
 	"runtime"
 	"sync"
+	"sync/atomic"
 
 	"verifharness/hx"
 
@@ -124,6 +125,58 @@ func stress(a *hx.Args, rng *mrand.Rand, res *hx.Result) {
 		rounds, maxG = 8, 64
 	}
 	ctx := big.NewInt(1)
+	// the FIRST use of a credential that was read from storage, by several goroutines released at the same instant (a spin barrier):
+	// all of them find the accumulator of the witness not unmarshaled yet. Many short rounds: what is raced for is one field
+	{
+		firstUse := 24
+		if a.Tier == "thorough" {
+			firstUse = 120
+		}
+		kp := hx.FreshKey1024(0)
+		base, _ := newCredential(kp, rng)
+		bts, err := json.Marshal(base)
+		if err != nil {
+			hx.Fatal("marshal credential: %v", err)
+		}
+		for round := 0; round < firstUse; round++ {
+			stored := &gabi.Credential{Pk: kp.PK}
+			if err := json.Unmarshal(bts, stored); err != nil {
+				hx.Fatal("unmarshal credential: %v", err)
+			}
+			const G = 8
+			var ready int32
+			var wg sync.WaitGroup
+			nonces := make([]*big.Int, G)
+			for g := range nonces {
+				nonces[g] = randBits(rng, 80)
+			}
+			for g := 0; g < G; g++ {
+				wg.Add(1)
+				go func(g int) {
+					defer wg.Done()
+					atomic.AddInt32(&ready, 1)
+					for atomic.LoadInt32(&ready) < G {
+					}
+					res.Eval(fmt.Sprintf("first-use/%d/%d", round, g))
+					if g%2 == 0 {
+						if err := stored.NonrevPrepareCache(); err != nil {
+							res.Violation("prepare-failed", "NonrevPrepareCache on a credential just read from storage: "+err.Error(), nil)
+						}
+						return
+					}
+					p, err := stored.CreateDisclosureProof([]int{1}, nil, true, ctx, nonces[g])
+					if err != nil {
+						res.Violation("prover-failed", fmt.Sprintf("CreateDisclosureProof on a credential just read from storage, under concurrency: %v", err), nil)
+						return
+					}
+					if !p.Verify(kp.PK, ctx, nonces[g], false) && !hx.D10Ambiguous(p, revIdx) {
+						res.Violation("concurrently-built-proof-invalid", "a proof built at the first concurrent use of a stored credential does not verify", nil)
+					}
+				}(g)
+			}
+			wg.Wait()
+		}
+	}
 	for round := 0; round < rounds; round++ {
 		for _, G := range []int{2, 4, maxG} {
 			runtime.GOMAXPROCS(1 + rng.Intn(runtime.NumCPU()))
